@@ -610,6 +610,25 @@ pub fn enc_cmd(cmd: &Command, reply: &RespValue) -> Option<String> {
             }
             format!("LMOVE {} {} {} {}", hk(source), hk(dest), wherefrom, whereto)
         }
+        // the commands of `Model.RedisX`
+        Command::SetBit(k, off, bit) => format!("X SETBIT {} {} {}", hk(k), off, bit),
+        Command::GetBit(k, off) => format!("X GETBIT {} {}", hk(k), off),
+        Command::BatchSet(kvs) => {
+            let mut s = format!("X BATCHSET {}", kvs.len());
+            for (k, v) in kvs {
+                s.push_str(&format!(" {} {}", hk(k), hv(v)));
+            }
+            s
+        }
+        Command::BatchGet(ks) => {
+            let mut s = format!("X BATCHGET {}", ks.len());
+            for k in ks {
+                s.push(' ');
+                s.push_str(&hk(k));
+            }
+            s
+        }
+        Command::Keys(p) => format!("X KEYS {}", hex(p.as_bytes())),
         _ => return None,
     })
 }
@@ -785,12 +804,12 @@ pub fn variant_info(c: &Command) -> (&'static str, Cover) {
         Command::MGet(_) => ("MGet", Modelled),
         Command::MSet(_) => ("MSet", Modelled),
         Command::MSetNx(_) => ("MSetNx", Modelled),
-        Command::BatchSet(_) => ("BatchSet", OracleOnly("internal shard-batch form of MSET, not reachable through RESP")),
-        Command::BatchGet(_) => ("BatchGet", OracleOnly("internal shard-batch form of MGET, not reachable through RESP")),
+        Command::BatchSet(_) => ("BatchSet", Modelled), // Model.RedisX
+        Command::BatchGet(_) => ("BatchGet", Modelled), // Model.RedisX
         Command::GetRange(_, _, _) => ("GetRange", Modelled),
         Command::SetRange(_, _, _) => ("SetRange", Modelled),
-        Command::SetBit(_, _, _) => ("SetBit", OracleOnly("bitmaps are outside the model")),
-        Command::GetBit(_, _) => ("GetBit", OracleOnly("bitmaps are outside the model")),
+        Command::SetBit(_, _, _) => ("SetBit", Modelled), // Model.RedisX
+        Command::GetBit(_, _) => ("GetBit", Modelled), // Model.RedisX
         Command::GetEx { .. } => ("GetEx", Modelled),
         Command::GetDel(_) => ("GetDel", Modelled),
         Command::Incr(_) => ("Incr", Modelled),
@@ -801,7 +820,7 @@ pub fn variant_info(c: &Command) -> (&'static str, Cover) {
         Command::Del(_) => ("Del", Modelled),
         Command::Exists(_) => ("Exists", Modelled),
         Command::TypeOf(_) => ("TypeOf", Modelled),
-        Command::Keys(_) => ("Keys", Modelled), // pattern `*`; other globs are oracle-only
+        Command::Keys(_) => ("Keys", Modelled), // `*` in Model.Redis, glob patterns in Model.RedisX
         Command::FlushDb => ("FlushDb", Modelled),
         Command::FlushAll => ("FlushAll", Modelled),
         Command::Expire { .. } => ("Expire", Modelled),
@@ -1000,7 +1019,7 @@ fn exp_flags(rng: &mut Rng) -> (bool, bool, bool, bool) {
 
 pub fn gen_string_cmd(rng: &mut Rng, now: u64) -> Command {
     let k = key(rng);
-    match rng.below(20) {
+    match rng.below(24) {
         0 | 1 => Command::Get(k),
         2..=5 => {
             let mut c = Command::set(k, payload(rng));
@@ -1047,7 +1066,15 @@ pub fn gen_string_cmd(rng: &mut Rng, now: u64) -> Command {
             }
             Command::GetEx { key: k, ex, px, exat, pxat, persist }
         }
-        _ => Command::GetDel(k),
+        19 => Command::GetDel(k),
+        20 => {
+            // never an offset whose byte index lies in 64..2^29: the executor would really allocate
+            let off = *rng.pick(&[0u64, 1, 7, 8, 9, 15, 16, 100, 175, 176, 183, 184, 191, 192, 4294967296, 4294967297, u64::MAX]);
+            Command::SetBit(k, off, rng.below(2) as u8)
+        }
+        21 => Command::GetBit(k, *rng.pick(&[0u64, 1, 7, 8, 9, 15, 16, 100, 183, 184, 191, 192, 100000, 4294967295, 4294967296, u64::MAX])),
+        22 => Command::BatchSet((0..rng.range(1, 3)).map(|_| (key(rng), payload(rng))).collect()),
+        _ => Command::BatchGet((0..rng.range(1, 4)).map(|_| key(rng)).collect()),
     }
 }
 
@@ -1062,13 +1089,28 @@ pub fn gen_counter_cmd(rng: &mut Rng) -> Command {
     }
 }
 
+/// a glob pattern over the key alphabet (`a b c kk é`): fixed shapes and random strings of pattern
+/// bytes (valid UTF-8: the pattern is a `String` in `Command::Keys`)
+pub fn glob_pattern(rng: &mut Rng) -> String {
+    const FIXED: [&str; 30] = [
+        "a", "?", "??", "???", "a*", "*a", "*k", "k*", "k?", "?k", "[abc]", "[a-c]", "[c-a]", "[^a]", "[^a-b]*", "[ab", "[", "[]", "[^]", "\\a",
+        "\\*", "a\\", "*\\", "[\\a]", "[a\\-c]", "é", "*é", "?é", "[é]", "**",
+    ];
+    if rng.chance(1, 2) {
+        return rng.pick(&FIXED).to_string();
+    }
+    const PIECES: [&str; 14] = ["a", "b", "c", "k", "é", "*", "?", "[", "]", "^", "-", "\\", "x", "kk"];
+    (0..rng.range(1, 5)).map(|_| *rng.pick(&PIECES)).collect()
+}
+
 pub fn gen_key_cmd(rng: &mut Rng) -> Command {
     let k = key(rng);
     match rng.below(24) {
         0..=3 => Command::Del((0..rng.range(1, 3)).map(|_| key(rng)).collect()),
         4..=6 => Command::Exists((0..rng.range(1, 3)).map(|_| key(rng)).collect()),
         7..=9 => Command::TypeOf(k),
-        10 | 11 => Command::Keys("*".into()),
+        10 => Command::Keys("*".into()),
+        11 => Command::Keys(glob_pattern(rng)),
         12 | 13 => Command::DbSize,
         14 => {
             if rng.chance(1, 3) {
@@ -1542,8 +1584,26 @@ pub fn sc_script(dt: u64, evict: bool, parts: Vec<Command>) -> Scripted {
 }
 
 pub fn run_scripted(out: &mut Out, prop: &str, name: &str, steps: Vec<Scripted>) {
-    let mut s = reset(out, BASE_MS);
+    run_scripted_cfg(out, prop, name, EpochCfg::Zero, steps)
+}
+
+/// the configurations `gen_epoch` draws from
+pub const EPOCH_CONFIGS: [EpochCfg; 7] = [
+    EpochCfg::Zero,
+    EpochCfg::Secs(1),
+    EpochCfg::Secs(1_790_000_000),
+    EpochCfg::Ms(1),
+    EpochCfg::Ms(1_790_000_000_123),
+    EpochCfg::Both(1_790_000_000, 1_790_000_000_999),
+    EpochCfg::Both(1_790_000_000, 1_790_000_000_000),
+];
+
+pub fn run_scripted_cfg(out: &mut Out, prop: &str, name: &str, cfg: EpochCfg, steps: Vec<Scripted>) {
+    let mut s = reset_with_epoch(out, BASE_MS, cfg);
     let mut seq: Vec<String> = Vec::new();
+    if cfg != EpochCfg::Zero {
+        seq.push(format!("config: {:?} (Unix time = virtual time + {} ms)", cfg, cfg.ms()));
+    }
     for st in steps {
         let t = s.now + st.dt;
         s.set_now(t, st.evict);
@@ -1624,4 +1684,59 @@ pub fn run_random_sequence(out: &mut Out, rng: &mut Rng, prop: &str, gen: &dyn F
     out.count(&format!("seq-len:{}", if len <= 3 { "1-3" } else if len <= 20 { "4-20" } else { "21-60" }));
     out.case(&canon, changed >= 1 && informative >= 1);
     out.sample(json!({"sequence": seq}));
+}
+
+// ------------------------------------------------------------------------------------------
+// coverage self-audit (machine-readable copy of DESIGN.md §4 C01 / C17 "coverage audit")
+
+pub fn audit_c01() -> serde_json::Value {
+    json!([
+      {"class": 1, "topic": "entry paths / variants never driven",
+       "covered": "every Command variant: exhaustive match (a new variant breaks the harness build) + variant list scanned from command.rs by build.rs; pub fns of impl CommandExecutor scanned from executor/mod.rs and mapped to how they are driven (C01:coverage:executor-fn-not-driven:<fn>): get_direct / set_direct / execute_read / evict_expired_direct are driven inside the random sequences and compared with the model; pub fns of src/redis/data/*.rs scanned and mapped (C01:coverage:data-fn-not-driven:<file>::<fn>): the real RedisSortedSet / RedisList / SDS (and RedisSet / RedisHash against references) are driven directly; straight-line EVAL scripts (SCRIPT ops, Redis.stepScript); SETBIT / GETBIT / BatchSet / BatchGet / KEYS <glob> are now in the model (Model.RedisX)",
+       "open": "with_shared_script_cache / set_shared_script_cache (C16); SkipList::remove / get_by_rank / is_empty have no caller and the module is private: unreachable; INCRBYFLOAT (floats), SCAN family (cursor paging over hash order), OBJECT/DEBUG/CLIENT/CONFIG/ACL stubs stay oracle-only (C17 sweep)"},
+      {"class": 2, "topic": "input alphabet",
+       "covered": "binary / empty / numeric-looking payloads; values of 22 / 23 / 24 / 100 / 4096 bytes; binary set members, hash fields, zset members; glob patterns from fixed shapes and random strings over a b c k é * ? [ ] ^ - backslash",
+       "open": "keys are valid UTF-8 (Command carries String; non-UTF-8 keys are C03 / C04 / C16); the empty key is not generated (KEYS ** differs from Redis on it only)"},
+      {"class": 3, "topic": "comparisons at equality",
+       "covered": "93 boundary sites computed from the live state (boundary.rs) incl. the SDS inline limit; data-structure driver: every rank index in {isize::MIN, -n-1, -n, -n+1, -1, 0, 1, n-1, n, n+1, isize::MAX}, score bounds at / around existing scores, LIMIT offsets -1..k+1; SETBIT / GETBIT offsets around byte 22 / 23 and 2^32",
+       "open": "SETRANGE / SETBIT at 512 MB (allocation cost)"},
+      {"class": 4, "topic": "configuration",
+       "covered": "simulation_start_epoch / simulation_start_epoch_ms are generated input (default, 1 s, present-day, year 9999; seconds only, ms only, both with an ms value that is not a multiple of 1000): the model runs on Unix time = virtual + epoch; a scripted pass runs every absolute-time command (EXPIREAT, PEXPIREAT, EXPIRETIME, PEXPIRETIME, SET EXAT / PXAT, GETEX EXAT / PXAT, the EXPIRE range check) under each of the 7 configurations",
+       "open": "ServerConfig (CONFIG SET) is read by config_ops.rs only"},
+      {"class": 5, "topic": "capacity thresholds",
+       "covered": "SDS 23-byte inline limit (APPEND / SETRANGE / SET / SETBIT ending at 22 / 23 / 24 bytes; SDS driver); skip-list levels up to 8 in long runs",
+       "open": "SKIPLIST_MAXLEVEL = 32 needs about 4^31 inserts: covered by the theorems (any level <= 32) only"},
+      {"class": 6, "topic": "fault kinds", "covered": "every call into the real code under catch_unwind; overflow checks on in the harness build", "open": "no I/O in scope"},
+      {"class": 7, "topic": "history shapes",
+       "covered": "expired-but-unevicted keys (update_time_readonly), type changes on 5 colliding keys, emptied-then-refilled; sorted sets: long runs, level shrink back to 1, free-slot reuse, repeated updates",
+       "open": "executor sequences are <= 60 commands (+ boundary blocks); no persistence in scope"},
+      {"class": 8, "topic": "node-global state", "covered": "per-set rng_state compared after every step", "open": "math.randomseed(current_time) is C20; commands_processed feeds INFO only"},
+      {"class": 9, "topic": "observations",
+       "covered": "reply + keys / types / values / PTTL after every step; a sorted set's member map, skip list, length field and is_sorted() must describe the same set; the whole skip-list structure (heights, spans, header spans, level, length, rng_state) in the data driver",
+       "open": "expirations entries of invisible keys are not reachable through a public API"},
+      {"class": 10, "topic": "finding signatures",
+       "covered": "every C01 known finding is identified by cause: the model of the code as it is (Model.ExecutorCode CODE lines; the specification on the lossy form of binary names) answers first and must predict the very reply and keyspace (must_agree), else <signature>:outcome-differs-from-model; the GETSET rule no longer accepts missing-in-impl; the glob rule only covers patterns with [ or backslash",
+       "open": ""},
+      {"class": 11, "topic": "harness fragility",
+       "covered": "sources are read from the tree named in harness/Cargo.toml; a scan that finds too little panics the build; an unparsable Debug rendering is a violation + exit 3; a driven entry point / data fn with 0 calls is exit 3",
+       "open": ""}
+    ])
+}
+
+pub fn audit_c17() -> serde_json::Value {
+    json!([
+      {"class": 1, "topic": "entry paths / variants never driven",
+       "covered": "the sweep executes every Command variant (exhaustive-match table and the list scanned from command.rs: C17:coverage:variant-not-driven:<V>), now incl. EVAL / EVALSHA; execute_readonly for every command classified read-only; the read-only classification three ways (list in the source of is_read_only, the binary's answer per instance, the model's isReadOnly / isReadOnlyX): C17:source:read-only-list-differs-from-classification, read-only-depends-on-fields, read-only-classification-not-a-plain-variant-list; the whole table goes through the model as op lines on every run; straight-line scripts in the model with their own theorems",
+       "open": "scripts other than straight-line redis.call sequences (C16 / C02)"},
+      {"class": 2, "topic": "input alphabet", "covered": "shared with C01 plus failure-biased operands", "open": ""},
+      {"class": 3, "topic": "comparisons at equality", "covered": "snapshots compared now and at d-1 / d / d+1 for every pre-existing deadline d", "open": ""},
+      {"class": 4, "topic": "configuration", "covered": "simulation_start_epoch(_ms) generated in the random sequences", "open": "sweep fixtures use the default epoch"},
+      {"class": 5, "topic": "capacity thresholds", "covered": "SDS limit through the shared payloads", "open": "OBJECT ENCODING thresholds only change a constant reply"},
+      {"class": 6, "topic": "fault kinds", "covered": "a panic in execute or in execute_readonly is a violation (the latter used to be dropped by .ok())", "open": ""},
+      {"class": 7, "topic": "history shapes", "covered": "four fixtures (every type with and without a deadline; every key and a missing key as source and destination) + random prefixes with lazy expiry", "open": ""},
+      {"class": 8, "topic": "node-global state", "covered": "transaction / script-cache commands run on a fresh twin each", "open": "not part of the visible keyspace"},
+      {"class": 9, "topic": "observations", "covered": "full snapshot of twin executors; zset member map vs skip list", "open": ""},
+      {"class": 10, "topic": "finding signatures", "covered": "C17:error-mutates:<CMD>:<error class> per command; the one listed finding (scripts) is tied to its cause by must_agree", "open": ""},
+      {"class": 11, "topic": "harness fragility", "covered": "a prepared prefix that replays to a different keyspace is C17:harness:twin-diverged (was counted and skipped); a variant classified as executed with 0 instances is exit 3", "open": ""}
+    ])
 }
